@@ -119,6 +119,8 @@ pub fn build(h: &[Ev]) -> File {
     let mut next_cel = 0u16;
     let mut nl = PRELUDE_LAYERS;
     let mut nsl = 0;
+    let mut nframe = 0usize;
+    let mut cels_in_frame0 = 0usize;
     for e in h {
         let fr = f.frames.last_mut().unwrap();
         match e {
@@ -127,7 +129,15 @@ pub fn build(h: &[Ev]) -> File {
                 nl += 1;
             }
             Ev::Cel => {
-                fr.push(raw_cel(next_cel, 0, 0, 255, 1, 1, vec![1, 2, 3, 4]));
+                // in later frames the cel is a *linked* cel whenever frame 0 holds a cel on that layer
+                if nframe > 0 && (next_cel as usize) < cels_in_frame0 {
+                    fr.push(link_cel(next_cel, 0, 0, 255, 0));
+                } else {
+                    fr.push(raw_cel(next_cel, 0, 0, 255, 1, 1, vec![1, 2, 3, 4]));
+                }
+                if nframe == 0 {
+                    cels_in_frame0 += 1;
+                }
                 next_cel += 1;
             }
             Ev::Slice => {
@@ -153,6 +163,7 @@ pub fn build(h: &[Ev]) -> File {
             Ev::NextFrame => {
                 f.frames.push(Frame::new(10));
                 next_cel = 0;
+                nframe += 1;
             }
             Ev::Ud(shape) => {
                 let sh = if *shape == 4 { nrec % 4 } else { *shape };
